@@ -48,57 +48,24 @@ def GROUP_STATE_ALL : Nat := 15
 def groupState (states : List Nat) : Nat :=
   (states.foldl (fun acc s => acc ||| s) 0) &&& GROUP_STATE_ALL
 
-/-- `u8::count_ones` of a value below 16. -/
-def popcount4 (n : Nat) : Nat := n % 2 + n / 2 % 2 + n / 4 % 2 + n / 8 % 2
+/-- `group_in_single_state` on the state list itself: the first entry if every other entry equals
+    it (`states.all(|state| state == first).then_some(*first)`), `None` for an empty group. -/
+def singleState : List SdState → Option SdState
+  | [] => Option.none
+  | first :: rest => if rest.all (fun state => state == first) then some first else Option.none
 
-/-- The `match` of `group_in_single_state` on the folded bitmap. -/
-def singleOf (st : Nat) : Option SdState :=
-  if popcount4 st > 1 then Option.none
-  else if st = 0 then some .none
-  else if st = 1 then some .init
-  else if st = 2 then some .preOp
-  else if st = 4 then some .safeOp
-  else if st = 8 then some .op
-  else Option.none
+/-- `TxRxResponse::group_in_single_state`. The argument is the list of `u8::from(state)` values;
+    the entries the code compares are the `SubDeviceState`s they decode to. -/
+def groupInSingleState (states : List Nat) : Option SdState := singleState (states.map SdState.ofNat)
 
-/-- `TxRxResponse::group_in_single_state` (AS CODED: decided on the OR of all states). -/
-def groupInSingleState (states : List Nat) : Option SdState := singleOf (groupState states)
+/-- `TxRxResponse::is_in_state`: `self.group_in_single_state() == Some(desired_state)`. -/
+def isInState (states : List Nat) (desired : SdState) : Bool := groupInSingleState states == some desired
 
-/-- `TxRxResponse::is_in_state` (AS CODED: decided on the OR of all states). -/
-def isInState (states : List Nat) (desired : SdState) : Bool :=
-  let st := groupState states
-  match desired with
-  | .none => st == 0
-  | .init => st == 1
-  | .preOp => st == 2
-  | .bootstrap => false
-  | .safeOp => st == 4
-  | .op => st == 8
-  | .other n => st == n
-
-/-- `TxRxResponse::all_op` (AS CODED): `group_in_single_state().filter(|s| s == Op).is_some()`. -/
+/-- `TxRxResponse::all_op`: `group_in_single_state().filter(|s| s == Op).is_some()`. -/
 def allOp (states : List Nat) : Bool :=
   match groupInSingleState states with
   | some s => s == .op
   | Option.none => false
-
-/-! Element-wise versions: what the summaries are documented to mean ("every SubDevice in the
-    group is in the same given state"). They are NOT the code; the theorems `*_elem_iff` are about
-    them, `*_as_coded` / `*_partial` / `*_counterexample` are about the code. When a `fix:` makes
-    the code element-wise, point `allOp`/`isInState`/`groupInSingleState` at these. -/
-
-def allInState (states : List Nat) (v : Nat) : Bool := !states.isEmpty && states.all (· == v)
-
-def allOpElem (states : List Nat) : Bool := allInState states SdState.op.toNat
-
-def isInStateElem (states : List Nat) (desired : SdState) : Bool :=
-  match desired with
-  | .bootstrap => false
-  | d => allInState states d.toNat
-
-def groupInSingleStateElem : List Nat → Option SdState
-  | [] => Option.none
-  | x :: rest => if rest.all (· == x) then some (SdState.ofNat x) else Option.none
 
 /-! ### Datagrams on the wire -/
 
